@@ -141,6 +141,7 @@ def main(argv=None):
         else:
             print(f"HARNESS-ERROR unknown argument {a}")
             return 2
+    prop.prepare(tier)
     if rp:
         return replay(prop, rp)
     if fps is not None:
@@ -197,6 +198,12 @@ def main(argv=None):
         if bad:
             harness.append(f"fingerprints differ in a fresh interpreter for "
                            f"runs {bad[:5]} {err}")
+
+    ex2, h2, v2 = prop.post_campaign(seed, tier, agg)
+    extra.update(ex2)
+    harness += h2
+    for v, ops in v2:
+        agg.viol.append((-1, v, ops))
 
     # violations: dedupe by signature, minimise, replay files
     known = load_known()
